@@ -45,12 +45,13 @@ ONAMES = ('a', 'b', 'c')
 LNAMES = ('x', 'y', 'z', 'a')
 CTXS = ('return', 'assign', 'if', 'try', 'with', 'listcomp', 'dictcomp', 'genexp', 'nested', 'lambda',
         'decoyarg', 'ternary', 'nested2', 'lambda_default', 'walrus', 'fstring', 'starred_display',
-        'nested_decoyarg', 'lambda_decoykw', 'lambda_subscript')
-NESTED_CTXS = ('nested', 'lambda', 'nested2', 'nested_decoyarg', 'lambda_decoykw', 'lambda_subscript')
+        'nested_decoyarg', 'lambda_decoykw', 'lambda_subscript', 'comp_rebinds_args', 'comp_rebinds_kwargs',
+        'nested_lambda', 'lambda_lambda')
+NESTED_CTXS = ('nested', 'lambda', 'nested2', 'nested_decoyarg', 'lambda_decoykw', 'lambda_subscript', 'nested_lambda', 'lambda_lambda')
 ROUTES = ('global', 'closure', 'attr', 'self_method', 'self_attr', 'param', 'partial_inner',
-          'shadow_posonly', 'shadow_lambda', 'shadow_nested', 'local_rebind', 'missing', 'noncallable',
+          'shadow_posonly', 'shadow_lambda', 'shadow_nested', 'shadow_comp', 'local_rebind', 'missing', 'noncallable',
           'classmethod_cls')
-UNRESOLVABLE = ('shadow_posonly', 'shadow_lambda', 'shadow_nested', 'local_rebind', 'missing', 'noncallable')
+UNRESOLVABLE = ('shadow_posonly', 'shadow_lambda', 'shadow_nested', 'shadow_comp', 'local_rebind', 'missing', 'noncallable')
 STAR_MODES = ('own', 'none', 'foreign', 'own+f')
 TAINTS = {
     # name: (target, statement template, what reaches the callee afterwards)
@@ -71,6 +72,9 @@ TAINTS = {
     'handover_kwargs': ('kwargs', 'MUTATE({K})', 'both'),
     'nonlocal_kwargs': ('kwargs', 'def _rebk():\n    nonlocal {K}\n    {K} = dict(HK)\n_rebk()', 'hidden'),
     'alias_kwargs': ('kwargs', '_alias = {K}\n_alias.update(HK)', 'both'),
+    # mutation from inside a nested function (it may run at any time)
+    'nested_update_kwargs': ('kwargs', 'def _mut():\n    {K}.update(HK)\n_mut()', 'both'),
+    'nested_handover_kwargs': ('kwargs', 'def _mut2():\n    MUTATE({K})\n_mut2()', 'both'),
     # bindings that are not assignment targets
     'import_kwargs': ('kwargs', 'from verif_hidden import HKV as {K}', 'hidden'),
     'import_args': ('args', 'from verif_hidden import HAV as {A}', 'hidden'),
@@ -111,7 +115,7 @@ def st_program(max_calls=3, routes=ROUTES, ctxs=CTXS, allow_taints=True, decos=N
             outer.append(Par(kname, VK))
         nleaves = draw(st.integers(1, 2))
         leaves = [draw(universe.st_spec(LNAMES, max_named=4, p_star=0.25)) for _ in range(nleaves)]
-        lkinds = [draw(st.sampled_from(['func', 'func', 'func', 'class', 'instance', 'wrapper'])) for _ in range(nleaves)]
+        lkinds = [draw(st.sampled_from(['func', 'func', 'func', 'func', 'class', 'instance', 'wrapper', 'partial', 'kwoargs', 'declared', 'midwrap'])) for _ in range(nleaves)]
         route = draw(st.sampled_from(routes))
         ncalls = draw(st.integers(1, max_calls)) if draw(st.booleans()) else 1
         calls = []
@@ -171,6 +175,7 @@ def normalise(prog):
     outer = [Par(*p) for p in prog['outer']]
     if any(c['ctx'] in NESTED_CTXS for c in prog['calls']):
         prog['taints'] = [dict(t, where='before') for t in prog['taints']]
+    has_star = {'args': any(p.kind == VP for p in outer), 'kwargs': any(p.kind == VK for p in outer)}
     pok = [p.name for p in outer if p.kind == POK]
     if prog['deco'] == 'kwoargs' and not pok:
         prog['deco'] = 'none'
@@ -198,6 +203,11 @@ def normalise(prog):
             spec = [Par(*p) for p in prog['leaves'][c['to']]]
             c['npos'] = sum(1 for p in spec if p.kind in (PO, POK) and p.default is None)
             c['names'] = [p.name for p in spec if p.kind == KWO and p.default is None]
+    for c in prog['calls']:
+        if c['ctx'] == 'comp_rebinds_args' and not (has_star['args'] and c['sa'] == 'own'):
+            c['ctx'] = 'listcomp'
+        if c['ctx'] == 'comp_rebinds_kwargs' and not (has_star['kwargs'] and c['sk'] == 'own'):
+            c['ctx'] = 'listcomp'
     nested_any = any(c['ctx'] in NESTED_CTXS for c in prog['calls'])
     for c in prog['calls']:
         c.setdefault('inarg', None)
@@ -259,7 +269,37 @@ def _leaf_src(i, spec, kind, as_method=False, deco=''):
     if kind == 'wrapper':
         return ('def _H%s(%s):\n    LOG.append(%s)\n    return %r\ndef %s(*args, **kwargs):\n    return _H%s(*args, **kwargs)\n'
                 % (name, params, rec, name, name, name))
+    if kind == 'partial':
+        # a functools.partial object whose first parameter is bound
+        pre = Par('pre', PO if any(p.kind == PO for p in spec) else POK)
+        return ('def _P%s(%s):\n    LOG.append(%s)\n    return %r\n%s = functools.partial(_P%s, 77)\n'
+                % (name, universe.spec_text((pre,) + tuple(spec)), rec, name, name, name))
+    if kind == 'kwoargs':
+        pok = [p.name for p in spec if p.kind == POK]
+        if not pok:
+            return _leaf_src(i, spec, 'func')
+        return ('@modifiers.kwoargs(%r)\ndef %s(%s):\n    LOG.append(%s)\n    return %r\n' % (pok[-1], name, params, rec, name))
+    if kind == 'declared':
+        # the callee declares its own forwarding with forwards_to_function (visible to inspect through emulate=True)
+        return ('def _T%s(%s):\n    LOG.append(%s)\n    return %r\n'
+                '@specifiers.forwards_to_function(_T%s, emulate=True)\ndef %s(lead=0, *args, **kwargs):\n    return _T%s(*args, **kwargs)\n'
+                % (name, params, rec, name, name, name, name)) if not any(p.name == 'lead' for p in spec) else _leaf_src(i, spec, 'func')
+    if kind == 'midwrap':
+        # a forwarding function with a parameter of its own, discovered (chain of depth 2)
+        return ('def _H%s(%s):\n    LOG.append(%s)\n    return %r\ndef %s(mid, *args, **kwargs):\n    return _H%s(*args, **kwargs)\n'
+                % (name, params, rec, name, name, name))
     raise ValueError(kind)
+
+
+def effective_spec(obj, declared):
+    """What the callee object accepts (its declared spec, or what inspect reports for the
+    kinds that transform it: partial, modifiers, declared forwarding, forwarding with own parameters)."""
+    import inspect
+    try:
+        sig = inspect.signature(obj)
+    except (ValueError, TypeError):
+        return declared
+    return tuple(Par(p.name, int(p.kind), None if p.default is p.empty else '1') for p in sig.parameters.values())
 
 
 def star_names(outer):
@@ -338,6 +378,15 @@ def _stmt(ctx, expr, j):
         return 'def _inner%d():\n    return DECOY(%s)\n%s = _inner%d()\n' % (j, expr, r, j)
     if ctx == 'lambda_decoykw':
         return '%s = (lambda: DECOY(x=%s))()\n' % (r, expr)
+    if ctx == 'comp_rebinds_args':
+        return '%s = [%s for {A} in (HA,)][0]\n' % (r, expr)
+    if ctx == 'comp_rebinds_kwargs':
+        return '%s = [%s for {K} in (dict(HK),)][0]\n' % (r, expr)
+    if ctx == 'nested_lambda':
+        # the intermediate scope binds no name at all
+        return 'def _outer%d():\n    return (lambda: %s)()\n%s = _outer%d()\n' % (j, expr, r, j)
+    if ctx == 'lambda_lambda':
+        return '%s = (lambda: (lambda: %s)())()\n' % (r, expr)
     if ctx == 'lambda_subscript':
         return '%s = (lambda: (%s, 0)[0])()\n' % (r, expr)
     if ctx == 'lambda_default':
@@ -361,7 +410,7 @@ def render(prog):
     route = prog['route']
     va, vk = star_names(outer)
     pre = ['import functools, types, contextlib',
-           'from sigtools import modifiers',
+           'from sigtools import modifiers, specifiers',
            'LOG = []', 'RES = []', 'HA = ()', 'HK = {}', 'SEL = 0', 'FLAG = True',
            'def DECOY(x=None, *a, **k):\n    return x',
            'def MUTATE(d):\n    d.update(HK)',
@@ -383,7 +432,7 @@ def render(prog):
         callee_expr[i] = {
             'global': n, 'closure': '_c%d' % i, 'attr': 'NS.sub.%s' % n, 'self_method': 'self.%s' % n,
             'self_attr': 'self.fn%d' % i, 'param': 'fn%d' % i, 'partial_inner': n,
-            'shadow_posonly': n, 'shadow_lambda': n, 'shadow_nested': n, 'local_rebind': n,
+            'shadow_posonly': n, 'shadow_lambda': n, 'shadow_nested': n, 'shadow_comp': n, 'local_rebind': n,
             'missing': 'MISSING%d' % i, 'noncallable': 'NONCALLABLE', 'classmethod_cls': 'cls.%s' % n,
         }[route]
     has_po = any(p.kind == PO for p in outer)
@@ -420,9 +469,13 @@ def render(prog):
             expr = '(lambda L%d, /: %s)(ALT)' % (c['to'], expr)
         elif route == 'shadow_lambda':
             expr = '(lambda L%d: %s)(ALT)' % (c['to'], expr)
+        elif route == 'shadow_comp':
+            expr = '[%s for L%d in (ALT,)][0]' % (expr, c['to'])
         elif route == 'shadow_nested':
             stmts.append(None)
         s = _stmt(c['ctx'], expr, j)
+        if c['ctx'] in ('comp_rebinds_args', 'comp_rebinds_kwargs'):
+            s = s.replace('{A}', va or 'args').replace('{K}', vk or 'kwargs')
         if route == 'shadow_nested':
             stmts.pop()
             s = 'def _sh%d(L%d):\n%s    return _r%d\n_r%d = _sh%d(ALT)\n' % (j, c['to'], _indent(s), j, j, j)
@@ -504,6 +557,11 @@ def taint_state(prog, upto=None):
         apply(target, flow)
     calls = prog['calls']
     last = len(calls) - 1 if upto is None else upto
+    if upto is not None:
+        if calls[upto]['ctx'] == 'comp_rebinds_args':
+            apply('args', 'hidden')
+        elif calls[upto]['ctx'] == 'comp_rebinds_kwargs':
+            apply('kwargs', 'hidden')
     for c in calls[:last + 1]:
         if c.get('inarg') == 'pop':
             apply('kwargs', 'same')
@@ -548,6 +606,15 @@ class Built(object):
         self.outer = tuple(Par(*p) for p in prog['outer'])
         self.leaves = [tuple(Par(*p) for p in l) for l in prog['leaves']]
         self.truth = ground_truth(prog)
+        self.declared_leaves = list(self.leaves)
+        for i, k in enumerate(prog['lkinds']):
+            if k == 'midwrap':
+                self.leaves[i] = (Par('mid', POK),) + tuple(self.leaves[i])
+            elif k in ('partial', 'kwoargs', 'declared'):
+                try:
+                    self.leaves[i] = effective_spec(self.leaf_obj(i), self.leaves[i])
+                except Exception:
+                    pass
 
     def close(self):
         realfn.unload(self.g)
